@@ -988,6 +988,108 @@ def pmatch_campaign(ctx, max_len: int, n_random: int) -> None:
 
 
 # ---------------------------------------------------------------------------------------------
+# file names that are not valid UTF-8 (byte-level stream; implementation and oracle only, the model has abstract names)
+# ---------------------------------------------------------------------------------------------
+
+# surrogate-escaped spellings (os.fsdecode) of byte names: latin-1 "café.txt", a lone continuation byte, 0xff, a latin-1
+# directory name; the worker creates them through os.fsencode, i.e. as the bytes b"caf\xe9.txt", b"\x80x.dat", …
+BYTE_FILES = ["caf\udce9.txt", "\udc80x.dat", "a\udcff", "sub/na\udcefve.txt", "d\udce9p/in\udce4.csv", "d\udce9p/plain.txt",
+              "sub/deep/\udcfcber.log"]
+PLAIN_FILES = ["junk.txt", "sub/keep.txt", "sub/deep/x.tmp", "notes.md"]
+
+
+def gen_bytes_case(rng, cid: str) -> dict:
+    root = "r"
+    names = rng.sample(BYTE_FILES, rng.randint(1, 4)) + rng.sample(PLAIN_FILES, rng.randint(1, 3))
+    files = {f"{root}/{n}": f"content of {i}\n" for i, n in enumerate(names)}
+    has_cfg = rng.random() < 0.6
+    if has_cfg:
+        files[f"{root}/pyproject.toml"] = "[tool.pytask.ini_options]\n"
+    cands = sorted(files)
+    tracked = [c for c in cands if rng.random() < 0.5]
+    staged = [c for c in cands if c not in tracked and rng.random() < 0.4]
+    dirs = sorted({root} | {f.rsplit("/", 1)[0] for f in files})
+    args = ["-d"] if rng.random() < 0.4 else []
+    return {"id": cid, "stream": "bytes", "layout": "repo_root_cfg" if has_cfg else "repo_root_nocfg", "root": root, "cwd": root,
+            "git": {"top": root, "tracked": tracked, "staged": staged, "modify_after": {}}, "files": files, "dirs": dirs,
+            "args": args, "paths": [], "path_rels": None, "steps": [{"mode": "dry-run"}, {"mode": "force"}], "has_cfg": has_cfg,
+            "cfg_pats": None, "cli_pats": [], "modules": {}, "dirnodes": [], "outer": [], "runner": "subprocess"}
+
+
+def lossy_spellings(rel: str) -> set[str]:
+    """How a program that does not keep the bytes may print the name."""
+    b = os.fsencode(rel)
+    return {rel, b.decode("utf-8", "replace"), b.decode("utf-8", "ignore"), b.decode("utf-8", "backslashreplace"),
+            b.decode("latin-1"), b.decode("utf-8", "replace").replace("\ufffd", "?")}
+
+
+def judge_bytes(ctx, case: dict, obs: dict) -> None:
+    """Names are compared as bytes (surrogate-escaped strings are a faithful spelling of bytes): no file of git's index may be
+    offered or removed. An abort (non-zero exit) that removed nothing tracked is accepted and counted."""
+    rp = {"kind": "cli", "case": case}
+    if "error" in obs:
+        ctx.dist["worker-error"] += 1
+        ctx.extra.setdefault("worker_errors", []).append(obs["error"][:200])
+        return
+    ctx.dist["stream:bytes"] += 1
+    tracked = set(obs.get("git_ls", []))
+    bad_tracked = {t for t in tracked if not _valid_utf8(t)}
+    s0 = obs["s0"]
+    dry, force = obs["runs"]
+    s1, s2 = dry["after"], force["after"]
+    ctx.dist["bytes:" + ("abort" if dry["exit"] != 0 or force["exit"] != 0 else "completed")] += 1
+    ctx.dist["bytes:" + ("tracked-malformed-name" if bad_tracked else "only-untracked-malformed")] += 1
+    gone1 = [p for p in s0 if p not in s1]
+    if gone1:
+        ctx.violation(f"dry-run-removed: {ascii(gone1[:3])} disappeared in dry-run mode (byte-level names)", rp)
+    gone2 = {p for p in s1 if p not in s2}
+    hit = sorted(p for p in gone2 if p in tracked or any(t.startswith(p + "/") for t in tracked))
+    if hit:
+        ctx.violation(f"removed-git-tracked: force mode removed {ascii(hit[:3])}, in git's index under exactly these bytes; "
+                      f"exit codes {dry['exit']}/{force['exit']}", rp)
+    offered = [w.rstrip("/") for w in dry["would"] + force["removed"]]
+    for t in sorted(tracked):
+        rel = t[len(case["root"]) + 1:]
+        names = {x for x in lossy_spellings(rel)} | {f"{case['root']}/{x}" for x in lossy_spellings(rel)}
+        if any(o in names or any(o.endswith("/" + n) for n in names) for o in offered):
+            ctx.violation(f"offered-git-tracked: 'pytask clean' offers {ascii(t)} (a name that is not valid UTF-8 is in git's index "
+                          f"as these bytes)", rp)
+            break
+    for p, k in s0.items():
+        if p in s1 and s1[p] != k and not p.startswith(f"{case['root']}/.pytask/") and "/.git/" not in p:
+            ctx.violation(f"dry-run-changed: {ascii(p)} changed in dry-run mode", rp)
+            break
+    ctx.case({"files": sorted(ascii(f) for f in case["files"]), "git": [sorted(map(ascii, case["git"]["tracked"])),
+                                                                          sorted(map(ascii, case["git"]["staged"]))], "args": case["args"]},
+             bool(bad_tracked), {"id": case["id"], "stream": "bytes", "tracked": [ascii(t) for t in sorted(bad_tracked)][:4],
+                                 "exit": [dry["exit"], force["exit"]]})
+
+
+def _valid_utf8(s: str) -> bool:
+    try:
+        os.fsencode(s).decode("utf-8")
+        return True
+    except UnicodeDecodeError:
+        return False
+
+
+BYTES_WITNESS = {
+    "id": "corpus-bytes", "stream": "bytes", "layout": "repo_root_nocfg", "root": "r", "cwd": "r",
+    "git": {"top": "r", "tracked": ["r/caf\udce9.txt"], "staged": ["r/sub/na\udcefve.txt"], "modify_after": {}},
+    "files": {"r/caf\udce9.txt": "c\n", "r/sub/na\udcefve.txt": "s\n", "r/junk.txt": "j\n"}, "dirs": ["r", "r/sub"], "args": [], "paths": [],
+    "path_rels": None, "steps": [{"mode": "dry-run"}, {"mode": "force"}], "has_cfg": False, "cfg_pats": None, "cli_pats": [],
+    "modules": {}, "dirnodes": [], "outer": [], "runner": "subprocess",
+}
+
+
+def bytes_campaign(ctx, n: int) -> None:
+    cases = [BYTES_WITNESS] + [gen_bytes_case(ctx.rng, f"b{i}") for i in range(n)]
+    obs = run_workers(cases, nproc=12)
+    for c in cases:
+        judge_bytes(ctx, c, obs[c["id"]])
+
+
+# ---------------------------------------------------------------------------------------------
 # the campaign
 # ---------------------------------------------------------------------------------------------
 
@@ -1034,10 +1136,22 @@ def campaign(ctx) -> None:
     cases = list(corpus)
     cases += [gen_case(ctx.rng, f"c{i}") for i in range(n_cli)]
     cases += [gen_case(ctx.rng, f"dn{i}", "dirnode") for i in range(n_dn)]
-    obs = run_workers(cases)
+    # file names that are not valid UTF-8, tracked / staged / untracked (byte-level oracle, real subprocess): same worker pool
+    bcases = [BYTES_WITNESS] + [gen_bytes_case(ctx.rng, f"b{i}") for i in range(ctx.scale(8, 150))]
+    step = max(1, len(cases) // len(bcases))
+    mixed = []
+    for i, c in enumerate(cases):          # spread the (slow) subprocess cases over the worker chunks
+        if i % step == 0 and bcases:
+            mixed.append(bcases.pop())
+        mixed.append(c)
+    mixed += bcases
+    obs = run_workers(mixed)
     pending: list = []
     before = len(ctx.violations)
-    for c in cases:
+    for c in mixed:
+        if c["stream"] == "bytes":
+            judge_bytes(ctx, c, obs[c["id"]])
+            continue
         judge(ctx, c, obs[c["id"]], pending)
         if c["id"] == "corpus-F9":
             hit = [v for v in ctx.violations[before:] if v["finding"] == "F9"]
@@ -1045,7 +1159,7 @@ def campaign(ctx) -> None:
         if c["id"] == "corpus-F16":
             ctx.extra["selftest_F16_witness_detected"] = any(v["finding"] == "F16" for v in ctx.violations)
     compare_model(ctx, pending)
-    total = max(1, len(cases))
+    total = max(1, len(mixed))
     fresh_now = [v for v in ctx.violations if not v["finding"]]
     if not fresh_now and (ctx.dist["unresolved-output"] + ctx.dist["worker-error"]) * 10 > total:
         raise common.InfraError(f"too many uninterpretable runs: {dict(ctx.dist)} {ctx.extra.get('worker_errors', [])[:2]}")
